@@ -392,6 +392,9 @@ class Body:
             for i, j, s in self.assigns():
                 if not s['place']['p']:
                     d[s['place']['l']].append(('stmt', i, j, s))
+                elif s['place']['p'][0] == 'deref':
+                    # a store through a pointer held in the local: not a definition of the local itself
+                    d[s['place']['l']].append(('store', i, j, s))
                 else:
                     d[s['place']['l']].append(('partial', i, j, s))
             for c in self.calls():
@@ -424,10 +427,12 @@ class Body:
             if 1 <= l <= self.arg_count:
                 roots.add(('arg', l))
                 # a parameter may also be re-assigned; keep going
-            defs = self.defs_of(l)
+            defs = [d for d in self.defs_of(l) if d[0] != 'store']
             if not defs and not (1 <= l <= self.arg_count):
                 roots.add(('unknown', l))
             for d in defs:
+                if d[0] == 'store':
+                    continue
                 if d[0] in ('stmt', 'partial'):
                     walk_rv(d[3]['rv'], d[1], d[2], depth + 1)
                 else:
